@@ -57,6 +57,9 @@ class Recorder:
         self.ops: list[tuple] = []  # (kind, detail)
         self.fault = fault  # dict(k=int, p=int, kind="kbint"|"exc") or None
         self.fired = False
+        # events that are not crash points and do not take part in the numbering of operations:
+        # (name, number of operations issued before it), e.g. ("finalize", 7)
+        self.marks: list[tuple] = []
 
     def hit(self, kind, detail=None) -> bool:
         """Register an op; True if the fault plan fires on it."""
@@ -120,9 +123,23 @@ def draw_probe_class():
         size_wh = (2, 1)
         fail_finalize = False  # the finalizer hook of a renderable subclass may raise
         finalize_raised = False
+        # every RenderData generated for the draw() under observation stays referenced HERE until
+        # the next run starts: whether draw() itself finalized it is read off the live object the
+        # moment draw() returns / raises (RenderData.__del__ finalizes on collection, which would
+        # otherwise make an unfinalized instance look finalized as soon as draw()'s frame dies)
+        live_data: list = []
+        cur_rec: Recorder | None = None
+
+        def _get_render_data_(self, *, iteration):
+            data = super()._get_render_data_(iteration=iteration)
+            DrawProbe.live_data.append(data)
+            return data
 
         @classmethod
         def _finalize_render_data_(cls, render_data):
+            rec = DrawProbe.cur_rec
+            if rec is not None and any(render_data is d for d in DrawProbe.live_data):
+                rec.marks.append(("finalize", len(rec.ops)))
             super()._finalize_render_data_(render_data)
             if DrawProbe.fail_finalize:
                 DrawProbe.finalize_raised = True
@@ -154,6 +171,8 @@ def run_new(case: dict, fault=None) -> dict:
     rec = Recorder(None if hook else fault)
     DrawProbe = draw_probe_class()
     DrawProbe.fail_finalize, DrawProbe.finalize_raised = hook == "finalize", False
+    DrawProbe.cur_rec = None
+    del DrawProbe.live_data[:]  # (an instance the previous run left unfinalized dies here)
     p = DrawProbe(case["frames"])
     p.size_wh = (case["rw"], case["rh"])
     p.rec = rec
@@ -166,6 +185,22 @@ def run_new(case: dict, fault=None) -> dict:
             raise rec.exc()
 
     R.sleep = fake_sleep
+    # hook "tcsetattr": the attribute set-up of draw() (its FIRST tcsetattr call, issued between
+    # the hide-cursor write and the first frame) fails / is interrupted; later calls are real
+    real_termios, setup = R.termios, {"fired": False}
+    if hook == "tcsetattr":
+
+        class TermiosProxy:
+            def __getattr__(self, name):
+                return getattr(real_termios, name)
+
+            def tcsetattr(self, fd, when, attr):
+                if not setup["fired"]:
+                    setup["fired"] = True
+                    raise KeyboardInterrupt() if fault["kind"] == "kbint" else InjectedError("injected fault in tcsetattr")
+                return real_termios.tcsetattr(fd, when, attr)
+
+        R.termios = TermiosProxy()
     fin0 = dict(DrawProbe.finalize_log)
     pristine = termios.tcgetattr(pty_slave())
     set_tty_mode(case.get("tty_mode", "default"))
@@ -174,6 +209,8 @@ def run_new(case: dict, fault=None) -> dict:
     outcome = "ok"
     old = sys.stdout
     sys.stdout = cap
+    DrawProbe.cur_rec = rec
+    fin_live, marks = False, []
     try:
         try:
             p.draw(
@@ -189,9 +226,16 @@ def run_new(case: dict, fault=None) -> dict:
             )
         except BaseException as e:  # noqa: BLE001
             outcome = type(e).__name__
+        finally:
+            # observed at the very moment draw() is over, on the live instances; a draw() rejected
+            # by its validation before any render data exists has nothing to finalize
+            DrawProbe.cur_rec = None
+            fin_live = all(d.finalized for d in DrawProbe.live_data)
+            marks = list(rec.marks)
     finally:
         sys.stdout = old
         DrawProbe.fail_finalize = False
+        R.termios = real_termios
     gc.collect()
     after = termios.tcgetattr(pty_slave())
     termios.tcsetattr(pty_slave(), termios.TCSANOW, pristine)
@@ -202,8 +246,10 @@ def run_new(case: dict, fault=None) -> dict:
         "outcome": outcome,
         "attrs_equal": after == before,
         "fin": fins,
+        "fin_live": fin_live,
+        "marks": marks,
         "state_same": p.tell() == tell0 and tuple(p.render_size) == size0,
-        "fired": DrawProbe.finalize_raised if hook else rec.fired,
+        "fired": setup["fired"] if hook == "tcsetattr" else DrawProbe.finalize_raised if hook else rec.fired,
         "stale": any(r[5] for r in p.renders),
     }
 
@@ -214,14 +260,28 @@ def run_new(case: dict, fault=None) -> dict:
 _files: dict = {}
 
 
-def image_file(frames: int, w: int = 6, h: int = 6) -> str:
-    key = (frames, w, h)
+def image_file(frames: int, w: int = 6, h: int = 6, noise: bool = False) -> str:
+    """noise: every pixel random (fixed seed) - a payload zlib cannot shrink, so that the size of
+    a kitty transmission is controlled by the pixel dimensions with AND without compression."""
+    key = (frames, w, h, noise)
     if key not in _files:
         d = imgs.tmpdir("draw") if not _files else Path(next(iter(_files.values()))).parent
-        path = d / f"f{frames}-{w}x{h}.{'gif' if frames > 1 else 'png'}"
+        path = d / f"f{frames}-{w}x{h}{'n' if noise else ''}.{'gif' if frames > 1 else 'png'}"
         from PIL import Image
 
-        if frames > 1:
+        if noise:
+            import random
+
+            def noisy(i):
+                rng = random.Random(7919 * i + w * 131 + h)
+                return Image.frombytes("RGB", (w, h), bytes(rng.randrange(256) for _ in range(w * h * 3)))
+
+            if frames > 1:
+                fr = [noisy(i).quantize(256) for i in range(frames)]
+                fr[0].save(path, "GIF", save_all=True, append_images=fr[1:], duration=40, loop=0)
+            else:
+                noisy(0).save(path)
+        elif frames > 1:
             fr = [Image.new("RGB", (w, h), FRAME_COLORS[i % len(FRAME_COLORS)]) for i in range(frames)]
             fr[0].save(path, "GIF", save_all=True, append_images=fr[1:], duration=40, loop=0)
         else:
@@ -256,7 +316,7 @@ def run_old(case: dict, fault=None) -> dict:
     stubs.set_term(size=(case["cols"], case["rows"]), cell=case.get("cell"))
     rec = Recorder(fault)
     cls = renderkit.image_class(case["style"])
-    path = image_file(case["frames"])
+    path = image_file(case["frames"], *case.get("src", (6, 6)), noise=case.get("noise", False))
 
     class Faulty(cls):  # counts frame renders, may fail at the k-th operation
         def _render_image(self, *a, **kw):
@@ -341,6 +401,8 @@ def run_old(case: dict, fault=None) -> dict:
         "outcome": outcome,
         "attrs_equal": after == before,
         "fin": 1,  # the old API has no render data
+        "fin_live": True,
+        "marks": [],
         "state_same": image.tell() == tell0 and image.size == size0,
         "fired": rec.fired,
         "stale": False,
